@@ -748,6 +748,8 @@ def gen_align_cases(rng, n):
             evs = [gen_align_event(rng, sysd, neg) for _ in range(1 if single else rng.randint(1, 4))]
             groups.append({'spec': sp, 'single': single, 'events': evs})
         c = {'stream': 'align', 'sys': sysd, 'groups': groups}
+        if rng.random() < 0.4:
+            c['ids'] = rng.choice(['some', 'all'])
         if rng.random() < 0.04:
             groups[-1]['spec'] = rng.choice(['middle', 'centre', 'Left'])
         cs.append(c)
@@ -767,6 +769,12 @@ def run_align(ctx, cases):
             evs = [build_event(d, system) for d in grp['events']]
             kwargs[grp['spec']] = evs[0] if grp['single'] else evs
             flat += [(grp['spec'], e) for e in evs]
+        if c.get('ids'):
+            # some inputs carry a library id (as after `ev.id = seq.register_*_event(ev)`)
+            for j, (_, e) in enumerate(flat):
+                if j % 2 == 0 or c['ids'] == 'all':
+                    e.id = 100 + j
+            ctx.count('align.inputs_with_library_id')
         before = [gl.snap(e) for _, e in flat]
         try:
             out = pp.align(**kwargs)
@@ -787,8 +795,9 @@ def run_align(ctx, cases):
             lens = [own_length(e) for _, e in flat]
             delays = [F(e.delay) for _, e in flat]
             line = 'go.align %d %s' % (len(flat), ' '.join(
-                '%d %s %s %s' % (SPEC_IDX.get(s, 5), qtok(l), qtok(dl), ztok(j))
-                for j, ((s, _), l, dl) in enumerate(zip(flat, lens, delays))))
+                '%d %s %s %s %s' % (SPEC_IDX.get(s, 5), qtok(l), qtok(dl), ztok(j),
+                                    ('1 ' + ztok(e.id)) if hasattr(e, 'id') else '0')
+                for j, ((s, e), l, dl) in enumerate(zip(flat, lens, delays))))
             invalid = any(s not in SPEC_IDX for s, _ in flat)
             negtotal = any(l + dl < 0 for l, dl in zip(lens, delays))
             if negtotal and not invalid:
@@ -828,7 +837,10 @@ def run_align(ctx, cases):
                         bad = ('C18/align-delay-' + s, {'index': j, 'kind': e.type, 'delay': float(o.delay),
                                                         'expected': float(w), 'common_duration': float(D)})
                         break
-                    dd = gl.same_obj(b, o, ignore=('delay',))
+                    if hasattr(o, 'id'):
+                        bad = ('C18/align-keeps-library-id', {'output_index': j, 'id': repr(o.id), 'kind': e.type})
+                        break
+                    dd = gl.same_obj(b, o, ignore=('delay', 'id'))
                     if dd is not None:
                         bad = ('C18/align-changes-other-field', dict(dd, index=j, kind=e.type))
                         break
@@ -859,8 +871,12 @@ def run_align(ctx, cases):
                 t.q()
                 md = t.q()
                 t.z()
+                mid = t.opt(t.z)
                 if abs(md - F(out[j].delay)) > Fraction(1, 10 ** 12):
                     ctx.mismatch('align', c, {'index': j, 'model': float(md), 'impl': float(out[j].delay)})
+                    break
+                if (mid is None) != (not hasattr(out[j], 'id')):
+                    ctx.mismatch('align', c, {'index': j, 'model_id': mid, 'impl_id': getattr(out[j], 'id', None)})
                     break
 
 
@@ -1256,6 +1272,11 @@ def corpus():
         {'stream': 'modaxis', 'sys': dict(s, ringdown=0.0, rf_dead=0.0, adc_dead=0.0), 'blocks': [
             [dict(t, delay=0.0), dict(e)], [dict(t, ch='z', amp=5e4, delay=0.0)]], 'axis': 'x', 'flip': True, 'mod': -1,
          'cache': True, 'warm': True, 'twice': False},                                      # FIX-11
+        # fixed: align kept the library id of registered events, add_block then stored the input with its old delay
+        {'stream': 'registered', 'op': 'align', 'sys': dict(s, ringdown=0.0, rf_dead=0.0, adc_dead=0.0), 'events': [
+            ['right', {'kind': 'trap', 'ch': 'y', 'amp': 1e5, 'rise': 1e-4, 'flat': 8e-4, 'fall': 1e-4, 'delay': 0.0}],
+            ['right', {'kind': 'trap', 'ch': 'z', 'amp': 5e4, 'rise': 1e-4, 'flat': 28e-4, 'fall': 1e-4, 'delay': 0.0}],
+            ['right', {'kind': 'adc', 'num': 64, 'dwell': 1e-5, 'delay': 0.0}]]},
     ]
     return cs
 
@@ -1278,20 +1299,28 @@ def run_cases(ctx, cases, chunk=400):
 
 def run(ctx):
     big = ctx.tier == 'thorough'
-    mult = 25 if big else 1
+    rounds = 25 if big else 1
     run_cases(ctx, corpus() + [KF9_CASE, TRIANGLE_CASE])
-    cases = []
-    cases += gen_scale_cases(ctx.rng('scale'), 400 * mult)
-    cases += gen_split3_cases(ctx.rng('split3'), 300 * mult)
-    cases += gen_splitat_cases(ctx.rng('splitat'), 130 * mult, 24 if not big else 60)
-    cases += gen_splitat_special(ctx.rng('splitat-special'), 120 * mult)
-    cases += gen_align_cases(ctx.rng('align'), 450 * mult)
-    cases += gen_modaxis_cases(ctx.rng('modaxis'), 200 * mult)
-    cases += gen_registered_cases(ctx.rng('registered'), 200 * mult)
-    for i, c in enumerate(cases):
-        if i % 531 == 7:
-            ctx.sample(c)
-    run_cases(ctx, cases)
+    # the thorough tier (also used, time-boxed, when the source of a transcribed function changed) repeats the quick
+    # mix of ALL streams with fresh random streams, so that a time budget never starves the later streams
+    for rnd in range(rounds):
+        if ctx.out_of_time():
+            ctx.notes.append('time budget reached after %d of %d rounds' % (rnd, rounds))
+            break
+        sfx = '' if rnd == 0 else '#%d' % rnd
+        cases = []
+        cases += gen_modaxis_cases(ctx.rng('modaxis' + sfx), 200)
+        cases += gen_registered_cases(ctx.rng('registered' + sfx), 200)
+        cases += gen_scale_cases(ctx.rng('scale' + sfx), 400)
+        cases += gen_split3_cases(ctx.rng('split3' + sfx), 300)
+        cases += gen_splitat_cases(ctx.rng('splitat' + sfx), 130, 24 if not big else 40)
+        cases += gen_splitat_special(ctx.rng('splitat-special' + sfx), 120)
+        cases += gen_align_cases(ctx.rng('align' + sfx), 450)
+        if rnd == 0:
+            for i, c in enumerate(cases):
+                if i % 531 == 7:
+                    ctx.sample(c)
+        run_cases(ctx, cases)
 
 
 def replay(ctx, case):
